@@ -84,7 +84,8 @@ func GetRawProtoField(protoBytes []byte, fieldNumber int) ([]byte, error) {
 				// calculate the new offset
 				offset += lenBytes
 				// extract the field value bytes
-				if offset+int(valueLen) > len(protoBytes) {
+				// NOTE: compare in uint64 - converting a hostile length to int first lets values >= 2^63 pass the bounds check
+				if valueLen > uint64(len(protoBytes)-offset) {
 					return nil, fmt.Errorf("field value exceeds buffer bounds")
 				}
 				// make buffer to return
